@@ -122,3 +122,39 @@ c = R.contract(
 )
 c.defaults = {"style": None}
 ANSI_FORMAT_STACK = {"qual": ANSI_FORMAT, "tag": "stack"}
+
+# ---------------------------------------------------------------- C11: a style added later takes effect, also under a known tag
+# Ghost model of pastel's style table: per tag, the foreground / background / options last registered.
+R.shape("Pastel", external=True, g_fg="dict[str,str?]", g_bg="dict[str,str?]", g_opts="dict[str,seq[str]]")
+R.contract("pastel.pastel:Pastel.add_style",
+           params={"name": "str", "fg": "str?", "bg": "str?", "options": "seq[str]"},
+           ensures=["name in self.g_fg and name in self.g_bg and name in self.g_opts",
+                    "(self.g_fg[name] is None) == (fg is None) and (fg is None or self.g_fg[name] == fg)",
+                    "(self.g_bg[name] is None) == (bg is None) and (bg is None or self.g_bg[name] == bg)",
+                    "self.g_opts[name] == options"],
+           modifies=["items(self.g_fg)", "items(self.g_bg)", "items(self.g_opts)"], assumed=True,
+           note="pastel's add_style(name, fg, bg, options) (re)defines the style of that tag")
+R.contract("pastel.pastel:Pastel.has_style", params={"name": "str"}, returns="bool", ensures=["result == (name in self.g_fg)"],
+           modifies=[], assumed=True)
+for _p, _g in (("foreground", "g_fg"), ("background", "g_bg")):
+    R.contract("pastel.style:PastelStyle." + _p, params={}, returns="str?",
+               ensures=["(result is None) == (self.%s is None)" % _g, "result is None or result == self.%s" % _g],
+               modifies=[], assumed=True).is_property = True
+R.contract("pastel.style:PastelStyle.options", params={}, returns="seq[str]", ensures=["result == self.g_options"], modifies=[],
+           assumed=True).is_property = True
+ADD_STYLE = M_ANSI + ":AnsiFormatter.add_style"
+T_ = "style._tag"
+R.contract(
+    ADD_STYLE, params={"style": "ref Style"},
+    requires=["style._tag is not None"],
+    ensures=[
+        # whatever the formatter knew under that tag before, it now renders the colours and attributes of THIS style
+        "%s in self._formatter.g_fg" % T_,
+        "(self._formatter.g_fg[%s] is None) == (style._fg_color is None) and (style._fg_color is None or self._formatter.g_fg[%s] == style._fg_color)" % (T_, T_),
+        "(self._formatter.g_bg[%s] is None) == (style._bg_color is None) and (style._bg_color is None or self._formatter.g_bg[%s] == style._bg_color)" % (T_, T_),
+        "self._formatter.g_opts[%s] == %s" % (T_, OPTS),
+    ],
+    modifies=["items(self._formatter.g_fg)", "items(self._formatter.g_bg)", "items(self._formatter.g_opts)"],
+)
+R.contract("clikit.api.formatter.style:Style.tag", params={}, returns="str?", ensures=["(result is None) == (self._tag is None)",
+           "result is None or result == self._tag"], modifies=[]).is_property = True
